@@ -45,6 +45,20 @@ check(
     "symbolic execution (CrossHair+z3) of the real dictionary encoder and decoder over symbolic instances",
     "DESIGN.md §5 C04",
 )
+check(
+    "C10",
+    "Bounded, solver-decided: on valid event streams of pool documents CrossHair injects an unknown element (any child slot of any complex element, three subtree shapes, six names incl. names that are fields elsewhere) or an unknown attribute (plain, namespaced, xsi:*) with symbolic text, or replaces an int value by a symbolic non-numeric string, and runs the real handler/NodeParser/ElementNode/SkipNode/ParserUtils under each of the 8 fail_on_* combinations (partitions): lenient => object equal to the untouched parse and no exception; strict => exactly ParserError; unknown attributes fail iff enabled and not xsi; a bad value is kept verbatim with a ConverterWarning or fails iff conversion warnings are configured to fail. Same for DictDecoder with unknown keys at every key path.",
+    _SEAM_NOTE + " warnings.warn is modelled (records the category, no message formatting).",
+    "symbolic execution (CrossHair+z3) of the real parser on symbolically mutated event streams; selectors for position/shape/name/options",
+    "DESIGN.md §5 C10",
+)
+check(
+    "C15",
+    "Bounded, solver-decided: every single-point fault of 12 kinds (delete, duplicate, retag, swap, inject child, corrupt text/attribute, delete/add attribute, bad xsi:type, bad xsi:nil, undeclared QName prefix) at every node of valid pool documents, with symbolic corrupt strings, is pushed through the real handlers and NodeParser; the call must return an instance of the requested class or raise ParserError/ConverterError/XmlContextError and nothing else. Dictionaries: 8 fault kinds at every key path through the real DictDecoder. The SyntaxError->ParserError wrapper of NodeParser.parse is driven by a stub handler.",
+    _SEAM_NOTE + " Byte-level faults (truncation, byte flips) and expat's well-formedness checking are behind the seam and outside the claim; termination is implied only by path exhaustion under a per-path timeout.",
+    "symbolic execution (CrossHair+z3) of the real parser/decoder over solver-chosen fault placements and symbolic corrupt values",
+    "DESIGN.md §5 C15",
+)
 for _p, _r in {
     "C07": "check not built yet", "C08": "check not built yet", "C09": "check not built yet", "C10": "check not built yet",
     "C11": "check not built yet", "C12": "check not built yet", "C14": "check not built yet", "C15": "check not built yet",
